@@ -46,6 +46,8 @@ var profiles = map[string]profile{
 		Transfer: 20, Member: 200, Snapshot: 250, MinVoters: 1, MaxVoters: 4, MaxNonvoters: 2, Clients: 4, TinySegments: true, C06Every: 8},
 	"identity": {Name: "identity", Partition: 30, Heal: 120, Crash: 40, Restart: 150, Stall: 20, ConnReset: 60, ConnStall: 10,
 		Transfer: 20, Member: 40, Snapshot: 20, MinVoters: 2, MaxVoters: 4, MaxNonvoters: 1, Clients: 3, TwoClusters: true, Misroute: 150, Intruder: 60},
+	"diskerr": {Name: "diskerr", Partition: 30, Heal: 120, Crash: 60, Restart: 250, Stall: 20, ConnReset: 20, ConnStall: 10,
+		Transfer: 10, Member: 20, Snapshot: 100, DiskErr: 30, MinVoters: 1, MaxVoters: 4, MaxNonvoters: 1, Clients: 4, TinySegments: true, C06Every: 8},
 	"calm": {Name: "calm", MinVoters: 1, MaxVoters: 5, MaxNonvoters: 1, Clients: 4, Snapshot: 30, Member: 30, Transfer: 30},
 }
 
